@@ -418,9 +418,16 @@ func (p *partition) Subscribe(ctx context.Context, req *client.SubscribeRequest)
 		return nil, st
 	}
 
-	if stopOffset != waitForNewMessages && stopOffset < startOffset {
+	if stopOffset != waitForNewMessages && !req.Reverse && stopOffset < startOffset {
 		return nil, status.New(
 			codes.InvalidArgument, fmt.Sprintf("Stop offset is before start offset: %d < %d",
+				stopOffset, startOffset))
+	}
+	// A reverse subscription reads from the start offset down to the stop
+	// offset.
+	if stopOffset != waitForNewMessages && req.Reverse && stopOffset > startOffset {
+		return nil, status.New(
+			codes.InvalidArgument, fmt.Sprintf("Stop offset is after start offset: %d > %d",
 				stopOffset, startOffset))
 	}
 
@@ -519,7 +526,8 @@ func (p *partition) newSubscribeLoop(ctx context.Context, groupID string, sub *s
 			// The stop offset itself might no longer be in the log, e.g. due
 			// to compaction or retention. In this case, the subscription
 			// ends at the first message past it, which is not delivered.
-			if !reverse && stopOffset != waitForNewMessages && offset > stopOffset {
+			if stopOffset != waitForNewMessages &&
+				((!reverse && offset > stopOffset) || (reverse && offset < stopOffset)) {
 				s := status.New(codes.ResourceExhausted, "Stop offset reached")
 
 				select {
